@@ -129,7 +129,8 @@ def build_app(cfg):
         classes[t] = make_mw_type('C03' + t, spec['unique'], spec['reorderable'], type_funcs(cfg, t),
                                   base=classes[spec['base']] if spec.get('base') else None, hooks=spec.get('hooks', 'method'),
                                   static_name=('sh:' + t) if spec.get('hooks') == 'static' else None,
-                                  cls_name=('C03' + spec['named_like']) if spec.get('named_like') else None)
+                                  cls_name=('C03' + spec['named_like']) if spec.get('named_like') else None,
+                                  field_eq=bool(spec.get('field_eq')))
     outer, sub, route = instances(cfg)
     one = {}
 
@@ -180,7 +181,7 @@ class C03(Check):
     level_text = ('For each generated stack the single-fault space (<= 17 layers x 4 behaviours) is enumerated '
                   'completely and compared, event by event, with a reference interpreter; stacks are sampled by seed.')
     level_note = 'Trusted: the reference onion interpreter (written from the property text, ~90 lines).'
-    required_probes = ('stack-deeper-than-64', 'three-nested-applications-with-middlewares', 'non-unique-non-reorderable-type-twice', 'two-unique-types-with-one-class-name', 'chain-consumes-every-injectable', 'same-hook-at-two-positions:static', 'same-hook-at-two-positions:one-instance', 'declared-name-provided-further-in', 'declared-name-offered',
+    required_probes = ('unique-value-class-middleware-at-two-levels', 'stack-deeper-than-64', 'three-nested-applications-with-middlewares', 'non-unique-non-reorderable-type-twice', 'two-unique-types-with-one-class-name', 'chain-consumes-every-injectable', 'same-hook-at-two-positions:static', 'same-hook-at-two-positions:one-instance', 'declared-name-provided-further-in', 'declared-name-offered',
                        'non-response-value-through-layers', 'unique-type-twice-in-route-list', 'subclass-and-base-in-one-stack', 'closure-hooks', 'second-route-without-own-middlewares', 'render-skipped-for-response', 'no-render-layers-ran', 'unique-deduped', 'three-levels',
                        'swallow-fired', 'double-fault')
 
@@ -196,6 +197,8 @@ class C03(Check):
                                  'base': ('T%d' % rng.randrange(i)) if (i and rng.random() < 0.35) else None,
                                  # hooks as plain functions from one factory (same __name__/__module__ on every instance)
                                  'hooks': 'closure' if rng.random() < 0.3 else 'method'}
+            if u and rng.random() < 0.25:
+                types['T%d' % i]['field_eq'] = True     # a value class: instances with different fields compare unequal
             if i and rng.random() < 0.25:
                 # a different type that merely has the same class NAME as an earlier one (SessionMiddleware of another package)
                 types['T%d' % i]['named_like'] = 'T%d' % rng.randrange(i)
@@ -332,6 +335,8 @@ class C03(Check):
         if any(not cfg['types'][t]['unique'] and not cfg['types'][t]['reorderable'] and
                (cfg['outer'] + (cfg.get('sub') or []) + (cfg.get('mid') or []) + cfg['route']).count(t) > 1 for t in used):
             res.probe('non-unique-non-reorderable-type-twice')
+        if any(cfg['types'][t].get('field_eq') and (cfg['outer'] + (cfg.get('sub') or []) + (cfg.get('mid') or []) + cfg['route']).count(t) > 1 for t in used):
+            res.probe('unique-value-class-middleware-at-two-levels')
         if len(cfg.get('ep_consumes', [])) == 4:
             res.probe('chain-consumes-every-injectable')
         names = [m['name'] for m in order]
